@@ -53,6 +53,9 @@ type Options struct {
 	LoopYieldFuncs []string
 }
 
+// Warnings collects non-fatal findings of the rewriter (fewer seams than expected); the caller prints them.
+var Warnings []string
+
 // Package is a type-checked repo package.
 type Package struct {
 	Fset  *token.FileSet
@@ -756,11 +759,23 @@ func (p *Package) File(path string, opt Options) ([]byte, Counts, error) {
 	}
 	src = append([]byte(hdr+"// Code generated by /verif/instrument from "+path+"; DO NOT EDIT.\n\n"), src...)
 	c := r.counts
-	if c.Pool < opt.MinPool {
-		return nil, c, fmt.Errorf("expected pool seams missing in %s (source refactored?): got %d, need >= %d", path, c.Pool, opt.MinPool)
+	// Seam counts below what the pinned commit has: a kind of seam that vanished altogether leaves the harness blind and
+	// is an error; FEWER seams than expected (a change removed one loop over a map, one lock …) is reported as a warning
+	// and the check goes on - it must be able to judge such a tree, not refuse it.
+	short := func(kind string, got, need int) error {
+		if got >= need {
+			return nil
+		}
+		if got == 0 {
+			return fmt.Errorf("expected %s seams missing in %s (source refactored?): got 0, need >= %d", kind, path, need)
+		}
+		Warnings = append(Warnings, fmt.Sprintf("%s: %d %s seams, the pinned commit has %d (source changed; the check goes on with the seams that exist)", path, got, kind, need))
+		return nil
 	}
-	if c.Lock < opt.MinLock || c.Select < opt.MinSelect || c.Go < opt.MinGo || c.Map < opt.MinMap {
-		return nil, c, fmt.Errorf("expected seams missing in %s (source refactored?): got %+v, need lock>=%d select>=%d go>=%d map>=%d", path, c, opt.MinLock, opt.MinSelect, opt.MinGo, opt.MinMap)
+	for _, e := range []error{short("pool", c.Pool, opt.MinPool), short("lock", c.Lock, opt.MinLock), short("select", c.Select, opt.MinSelect), short("go", c.Go, opt.MinGo), short("map", c.Map, opt.MinMap)} {
+		if e != nil {
+			return nil, c, e
+		}
 	}
 	return src, c, nil
 }
